@@ -11,11 +11,13 @@ E7Small == {El7(k, t, id, f, "full", "own", "child") :
            \cup {El7("iq", t, "a", f, to, ns, "child") : t \in {"set", "error"}, f \in {"none", "own", "ownfull", "peer", "domain"},
                                                        to \in {"none", "full", "bare"}, ns \in {"own", "other"}}
 P7Small == {Prog7("all", w, r, "none") : w \in WNames, r \in {"ok", "err", "stanzaerr"}}
+           \* error VALUES that wrap / resemble a sentinel or a documented error type
+           \cup {Prog7("all", w, r, "none") : w \in {"none", "reply", "errreply", "otherid", "nested", "first"}, r \in Rets}
            \cup {Prog7("all", w, "ok", m) : w \in {"none", "otherid", "reply"}, m \in Muts}
 C7ItemsMC == {[e |-> e, p |-> p] : e \in E7Small, p \in P7Small}
 (* two elements in a row: the second is a plain request *)
 C7ItemsSeq == {[e |-> El7("iq", t, "a", "peer", "full", ns, "child"), p |-> Prog7("all", w, r, "none")] :
-                 t \in {"get", "result"}, ns \in {"own", "other"}, w \in {"none", "reply", "otherid"}, r \in {"ok", "err", "stanzaerr"}}
+                 t \in {"get", "result"}, ns \in {"own", "other"}, w \in {"none", "reply", "otherid"}, r \in {"ok", "err", "stanzaerr", "eof", "weof"}}
 
 (* part 2: inputs x program cycles *)
 B0 == <<>>
@@ -27,13 +29,21 @@ Plain8 == {Elem("stanza", "own", B0), Elem("stanza", "peer", B2), Elem("foreign"
 Term8 == {Elem("stanza", "none", Ins(B2, i, <<"c", "comment">>)) : i \in {1, 3, 8}}
          \cup {Elem("stanza", "own", Ins(B1, 2, <<"c", "serr">>)), Elem("foreign", "none", Ins(B1, 3, <<"bad">>))}
          \cup {Top(k) : k \in {"text", "utext", "comment", "restart", "close", "eof"}} \cup {SErr("host-unknown")}
+(* the response to a pending request: plain, and with a stream-level construct inside it (depth 1, depth 2) *)
+RespPlain == Elem("resp", "peer", B1)
+TermResp == {Elem("resp", "peer", Ins(B1, 1, <<"c", "comment">>)), Elem("resp", "peer", Ins(B1, 2, <<"c", "serr">>)),
+             Elem("resp", "peer", Ins(B2, 3, <<"c", "restart">>))}
+C8WReadsMC == {0, 2, 10}
+HasResp(x) == \E i \in 1..Len(x) : x[i].k = "el" /\ x[i].kind = "resp"
 (* a prefix of continuing items, one terminating item, possibly something behind it *)
-C8InputsMC == {pre \o <<t>> \o post : pre \in UNION {[1..n -> Plain8] : n \in 0..2}, t \in Term8,
-                                     post \in {<<>>, <<Elem("stanza", "peer", B1)>>}}
-              \cup UNION {[1..n -> Plain8] : n \in 0..2}
-C8InputsMC3 == {pre \o <<t>> \o post : pre \in UNION {[1..n -> Plain8] : n \in 0..3}, t \in Term8,
-                                      post \in {<<>>, <<Elem("stanza", "peer", B1)>>}}
-               \cup UNION {[1..n -> Plain8] : n \in 0..3}
+Gen(P, T, n) == {pre \o <<t>> \o post : pre \in UNION {[1..m -> P] : m \in 0..n}, t \in T,
+                                         post \in {<<>>, <<Elem("stanza", "peer", B1)>>}}
+                \cup UNION {[1..m -> P] : m \in 0..n}
+C8InputsMC == Gen(Plain8, Term8, 2)
+              \cup {x \in Gen(Plain8 \cup {RespPlain}, Term8 \cup TermResp, 1) : HasResp(x)}
+              \cup {<<RespPlain, RespPlain, t>> : t \in TermResp \cup {Top("close")}}
+C8InputsMC3 == Gen(Plain8, Term8, 3)
+               \cup {x \in Gen(Plain8 \cup {RespPlain}, Term8 \cup TermResp, 2) : HasResp(x)}
 (* one session per way of getting the own address, on both namespaces *)
 C8SessMC == {Sess("c2s", "custom", "same", FALSE), Sess("rc2s", "custom", "other", FALSE), Sess("rs2s", "custom", "none", TRUE)}
 C8SessMC5 == C8SessMC \cup {Sess("s2s", "custom", "other", FALSE), Sess("c2s", "lib", "same", TRUE)}
